@@ -19,7 +19,7 @@ CLAIMED = {
     'C05': ('save routing and funnel into write_index under ctx.wait, fresh-file threshold below the smallest record, exclusive '
             'ownership of catalogue fields, reader/writer field agreement of the DTO codec, membership/addresses of an installed snapshot reach the index file; the answer of a save is delivered after its queued write (actor future), no read of a field whose assignment is still scheduled, every change_membership caller writes a Members entry', 'pairing + constant comparison + field sets', '3 C05'),
     'C06': ('error discipline on the config commit chain only: no discarded Result from the route to Raft::client_write, every caller '
-            'branches on the result, follower temp value only after the leader answered, follower apply path uses do_send only (no try_send / detached task); in the Raft core this tree resolves (async_raft_ext MIR): a joined node's replication state reaches the set the commit decision reads, last_applied is not moved over unapplied entries', 'discard analysis + call graph + dominance', '3 C06'),
+            'branches on the result, follower temp value only after the leader answered, follower apply path uses do_send only (no try_send / detached task); in the Raft core this tree resolves (async_raft_ext MIR): the replication state of a joined node reaches the set the commit decision reads, last_applied is not moved over unapplied entries', 'discard analysis + call graph + dominance', '3 C06'),
     'C07': ('the three hand-written dispatch copies reduced to per-variant normal forms (actor, message, variant, field mapping) and '
             'compared; last-applied recording; order preservation on the follower path; the node-local tmp mark is raised only on different content; derived indexes are current when a replayed request reads them', 'sibling cross-check over normal forms', '3 C07'),
     'C08': ('install path reaches the state-machine loader on the call graph (with actix message edges), header membership persisted, '
